@@ -125,8 +125,11 @@ type client struct {
 }
 
 func (c *client) sendCBOR(message any) error {
+	vh("c.send.pre", "msg", message)
 	c.mutex.Lock()
 	defer c.mutex.Unlock()
+	vh("c.send", "msg", message)
+	defer vh("c.sent", "msg", message)
 	return c.encoder.Encode(message)
 }
 
@@ -179,6 +182,7 @@ func (c *client) Execute(
 	signalsFromStep chan<- schema.Input,
 ) ExecutionResult {
 	c.logger.Debugf("Executing plugin step %s/%s...", stepData.RunID, stepData.ID)
+	vh("c.exec", "run", stepData.RunID)
 	if len(stepData.RunID) == 0 {
 		return NewErrorExecutionResult(fmt.Errorf("run ID is blank for step %s", stepData.ID))
 	}
@@ -216,6 +220,7 @@ func (c *client) Execute(
 
 // Close Tells the client that it's done, and can stop listening for more requests.
 func (c *client) Close() error {
+	vh("c.close.pre")
 	c.cancelFunc()
 	c.mutex.Lock()
 	if c.done {
@@ -223,6 +228,7 @@ func (c *client) Close() error {
 		return nil
 	}
 	c.done = true
+	vh("c.close.done")
 	c.mutex.Unlock()
 	// Now tell the server we're done.
 	// Send the client done message
@@ -245,7 +251,9 @@ func (c *client) Close() error {
 			}
 		}
 	}
+	vh("c.close.wait.pre")
 	c.wg.Wait()
+	vh("c.close.ret")
 	return nil
 }
 
@@ -284,8 +292,10 @@ func (c *client) executeWriteLoop(
 	runID string,
 	signalsToStep <-chan schema.Input,
 ) {
+	vh("c.wloop.begin.pre", "run", runID)
 	c.mutex.Lock()
 	if c.done {
+		vh("c.wloop.exit", "run", runID, "why", "done")
 		c.mutex.Unlock()
 		// Close() was called, so exit now.
 		c.logger.Warningf(
@@ -295,6 +305,7 @@ func (c *client) executeWriteLoop(
 		return
 	}
 	c.mutex.Unlock()
+	vh("c.wloop.begin", "run", runID)
 
 	// Looped select that gets signals
 	for {
@@ -303,15 +314,18 @@ func (c *client) executeWriteLoop(
 		select {
 		case signal, ok = <-signalsToStep:
 			if !ok {
+				vh("c.wloop.exit", "run", runID, "why", "closed")
 				c.logger.Debugf("ATP signal loop done; channel closed")
 				return
 			}
 		case <-c.context.Done():
+			vh("c.wloop.exit", "run", runID, "why", "ctx")
 			c.logger.Debugf("ATP signal loop exited; context closed")
 			return
 		}
 		c.logger.Debugf("Sending signal with ID '%s' to step with run ID '%s'", signal.ID, signal.RunID)
 		if signal.ID == "" || signal.RunID == "" {
+			vh("c.wloop.exit", "run", runID, "why", "invalid")
 			c.logger.Errorf("Invalid run ID (%s) or signal ID (%s)", signal.ID, signal.RunID)
 			return
 		}
@@ -322,6 +336,7 @@ func (c *client) executeWriteLoop(
 				SignalID: signal.ID,
 				Data:     signal.InputData,
 			}}); err != nil {
+			vh("c.wloop.exit", "run", runID, "why", "werr")
 			c.logger.Errorf(
 				"Client with steps '%s' failed to write signal (%s) with run id %q with error: %v",
 				c.getRunningStepIDs(),
@@ -345,7 +360,9 @@ func (c *client) sendExecutionResult(runID string, result ExecutionResult) {
 		// Send the result
 		resultEntry.result = &result
 		resultEntry.condition.Signal()
+		vh("c.deliver", "run", runID, "found", true, "err", result.Error != nil)
 	} else {
+		vh("c.deliver", "run", runID, "found", false)
 		c.logger.Errorf("Step result entry not found for run ID '%s'. This is either a bug in the ATP "+
 			"client, or the plugin erroneously sent a second result.", runID)
 	}
@@ -360,10 +377,12 @@ func (c *client) sendExecutionResult(runID string, result ExecutionResult) {
 
 func (c *client) sendErrorToAll(err error) {
 	result := NewErrorExecutionResult(err)
+	vh("c.deliverAll.pre")
 	c.mutex.Lock()
 	for runID := range c.runningStepResultEntries {
 		c.sendExecutionResult(runID, result)
 	}
+	vh("c.deliverAll", "n", len(c.runningStepResultEntries))
 	c.mutex.Unlock()
 }
 
@@ -376,6 +395,7 @@ func (c *client) handleWorkDoneMessage(runtimeMessage DecodedRuntimeMessage) {
 	} else {
 		result = c.processWorkDone(runtimeMessage.RunID, doneMessage)
 	}
+	vh("c.deliver.pre", "run", runtimeMessage.RunID)
 	c.mutex.Lock()
 	c.sendExecutionResult(runtimeMessage.RunID, result)
 	c.mutex.Unlock()
@@ -388,9 +408,11 @@ func (c *client) handleSignalMessage(runtimeMessage DecodedRuntimeMessage) {
 			runtimeMessage.RunID, err)
 		return
 	}
+	vh("c.sigfwd.pre", "run", runtimeMessage.RunID)
 	c.mutex.Lock()
 	defer c.mutex.Unlock() // Hold lock until we send to the channel to prevent premature closing of the channel.
 	signalChannel, found := c.runningStepEmittedSignalChannels[runtimeMessage.RunID]
+	vh("c.sigfwd", "run", runtimeMessage.RunID, "found", found)
 	if !found {
 		c.logger.Warningf(
 			"Step with run ID '%s' sent signal '%s'. Ignoring; signal handling is not implemented "+
@@ -420,6 +442,7 @@ func (c *client) handleErrorMessage(runtimeMessage DecodedRuntimeMessage) bool {
 		if runtimeMessage.RunID == "" {
 			c.sendErrorToAll(fmt.Errorf("step fatal error missing run id (%w)", resultMsg))
 		} else {
+			vh("c.deliver.pre", "run", runtimeMessage.RunID)
 			c.mutex.Lock()
 			c.sendExecutionResult(runtimeMessage.RunID, NewErrorExecutionResult(resultMsg))
 			c.mutex.Unlock()
@@ -429,6 +452,7 @@ func (c *client) handleErrorMessage(runtimeMessage DecodedRuntimeMessage) bool {
 }
 
 func (c *client) hasEntriesRemaining() bool {
+	vh("c.check.pre")
 	c.mutex.Lock()
 	defer c.mutex.Unlock()
 	for _, resultEntry := range c.runningStepResultEntries {
@@ -436,24 +460,30 @@ func (c *client) hasEntriesRemaining() bool {
 		// Context: There is a fraction of time when the entry is still in the map
 		// following completion. It is set to a non-nil value when done.
 		if resultEntry.result == nil {
+			vh("c.check", "remaining", true)
 			return true
 		}
 	}
+	vh("c.check", "remaining", false)
 	return false
 }
 
 func (c *client) executeReadLoop(cborReader *cbor.Decoder) {
 	defer func() {
+		vh("c.loopExit.pre")
 		c.mutex.Lock()
 		defer c.mutex.Unlock()
 		c.readLoopRunning = false
+		vh("c.loopExit")
 		c.wg.Done()
 	}()
 	// Loop and get all messages
 	// The message is generic, so we must find the type and decode the full message next.
 	var runtimeMessage DecodedRuntimeMessage
 	for {
+		vh("c.decode.pre")
 		if err := cborReader.Decode(&runtimeMessage); err != nil {
+			vh("c.decode", "err", err)
 			c.logger.Errorf(
 				"ATP client for steps '%s' failed to read or decode runtime message: %v",
 				c.getRunningStepIDs(),
@@ -463,6 +493,7 @@ func (c *client) executeReadLoop(cborReader *cbor.Decoder) {
 			c.sendErrorToAll(fmt.Errorf("failed to read or decode runtime message (%w)", err))
 			return
 		}
+		vh("c.decode", "id", runtimeMessage.MessageID, "run", runtimeMessage.RunID)
 		switch runtimeMessage.MessageID {
 		case MessageTypeWorkDone:
 			c.handleWorkDoneMessage(runtimeMessage)
@@ -505,11 +536,14 @@ func (c *client) getResultV1(
 	stepData schema.Input,
 ) ExecutionResult {
 	var doneMessage WorkDoneMessage
+	vh("c.v1decode.pre", "run", stepData.RunID)
 	if err := cborReader.Decode(&doneMessage); err != nil {
+		vh("c.v1decode", "run", stepData.RunID, "err", err)
 		err = fmt.Errorf("failed to read or decode work done message (%w) for step %s", err, stepData.ID)
 		c.logger.Errorf(err.Error())
 		return NewErrorExecutionResult(err)
 	}
+	vh("c.v1decode", "run", stepData.RunID)
 	return c.processWorkDone(stepData.RunID, doneMessage)
 }
 
@@ -519,10 +553,12 @@ func (c *client) prepareResultChannels(
 	emittedSignals chan<- schema.Input,
 ) error {
 	c.logger.Debugf("Preparing result channels for step with run ID %q", stepData.RunID)
+	vh("c.register.pre", "run", stepData.RunID)
 	c.mutex.Lock()
 	defer c.mutex.Unlock()
 	_, existing := c.runningStepResultEntries[stepData.RunID]
 	if existing {
+		vh("c.register", "run", stepData.RunID, "dup", true)
 		return fmt.Errorf("duplicate run ID given '%s'", stepData.RunID)
 	}
 	// Set up the signal and step results channels
@@ -539,19 +575,23 @@ func (c *client) prepareResultChannels(
 		// Only a single read loop should be running
 		c.wg.Add(1) // Add here, so that it's before the goroutine to prevent race conditions.
 		c.readLoopRunning = true
+		vh("c.loop.start", "run", stepData.RunID)
 		go func() {
 			c.executeReadLoop(cborReader)
 		}()
 	}
+	vh("c.register", "run", stepData.RunID, "dup", false, "loop", c.readLoopRunning, "n", len(c.runningStepResultEntries))
 	return nil
 }
 
 // getResultV2 communicates with the RuntimeMessage loop to get the ExecutionResult.
 func (c *client) getResultV2(stepData schema.Input) ExecutionResult {
+	vh("c.wait.pre", "run", stepData.RunID)
 	c.mutex.Lock()
 	defer c.mutex.Unlock()
 	resultEntry, found := c.runningStepResultEntries[stepData.RunID]
 	if !found {
+		vh("c.take", "run", stepData.RunID, "missing", true)
 		return NewErrorExecutionResult(
 			fmt.Errorf("could not find result entry for step with run ID '%s'. Existing entries: %v",
 				stepData.RunID, c.runningStepResultEntries),
@@ -559,6 +599,7 @@ func (c *client) getResultV2(stepData schema.Input) ExecutionResult {
 	}
 	if resultEntry.result == nil {
 		// Wait for the result
+		vh("c.wait", "run", stepData.RunID)
 		resultEntry.condition.Wait()
 	}
 	if resultEntry.result == nil {
@@ -568,6 +609,7 @@ func (c *client) getResultV2(stepData schema.Input) ExecutionResult {
 	// Now that we've received the result for this step, remove it from the list of running steps.
 	// We do this here because the sender cannot tell when the message has been received, and so
 	// it cannot tell when it is safe to remove the entry from the map.
+	vh("c.take", "run", stepData.RunID, "err", resultEntry.result.Error != nil)
 	delete(c.runningStepResultEntries, stepData.RunID)
 	return *resultEntry.result
 }
